@@ -408,7 +408,9 @@ impl HardLinkContainer {
     ///
     /// Call `test_support()` after creation to check filesystem support.
     pub fn new(access_mode: AccessMode, storage_path: PathBuf) -> Self {
-        let read_only = access_mode == AccessMode::ReadOnly;
+        // Everything without write access is read-only: `AccessMode::None`
+        // must not be more permissive than `ReadOnly`.
+        let read_only = !access_mode.can_write();
         let trie = TrieDirectoryStorage::new(storage_path.clone());
         Self {
             supported: false,
